@@ -51,19 +51,51 @@ func vh_C12_routing() {
 	vxUnwind(1, true) // datagrams with at most one attribute are followed
 	dn := vxLen(1024)
 	data := vxBytes(dn, dn)
-	m := new(Message)
-	m.Raw = make([]byte, 1024)
-	vxReaderStep(env.c, m, data)
-	vxUnwind(vxLoopBound, false)
-	total := len(fb.events)
-	for i := range recs {
-		total += len(recs[i].events)
+	if dn == 1024 {
+		vxReach("full-buffer-datagram")
 	}
+	// the client's own reader loop runs: it receives the datagram, and when it comes back for more
+	// the harness records what has happened so far and closes the client, which ends the loop
+	env.conn.script = [][]byte{data}
+	total := 0
+	var seen [n + 1]int
+	var m *Message
+	env.conn.after = func() {
+		for i := range recs {
+			seen[i] = len(recs[i].events)
+			total += seen[i]
+			if seen[i] > 0 {
+				m = recs[i].events[0].Message
+			}
+		}
+		seen[n] = len(fb.events)
+		total += seen[n]
+		if seen[n] > 0 {
+			m = fb.events[0].Message
+		}
+		_ = env.c.Close()
+	}
+	env.c.readUntilClosed()
+	vxUnwind(vxLoopBound, false)
 	vxAssert(len(stale.events) == 0, "a handler left in a recycled object is never invoked")
+	inFlightAfter := n
+	for i := range recs {
+		inFlightAfter -= seen[i]
+	}
 	if total == 0 {
 		// undecodable datagram (or unmatched without fallback): nothing changes
 		vxReach("nothing-invoked")
-		vxAssert(len(env.c.t) == n, "a dropped datagram affects no transaction")
+		r := refParse(data, 1)
+		vxAssert(!r.ok || r.over || !withFallback, "a decodable datagram is never dropped when a fallback handler is set")
+		if r.ok {
+			var rid0 transactionID
+			for i := 0; i < TransactionIDSize; i++ {
+				rid0[i] = vxAt(data, 8+i)
+			}
+			for i := range ids {
+				vxAssert(ids[i] != rid0, "a decodable response to an in-flight transaction is never dropped")
+			}
+		}
 		return
 	}
 	vxAssert(total == 1, "one datagram causes at most one handler invocation")
@@ -80,16 +112,16 @@ func vh_C12_routing() {
 	hit = vxConcretize(hit, -1, n-1)
 	if hit >= 0 {
 		vxReach("matched")
-		vxAssert(len(recs[hit].events) == 1, "the response reaches the transaction with the same ID")
+		vxAssert(seen[hit] == 1, "the response reaches the transaction with the same ID")
 		e := recs[hit].events[0]
 		vxAssert(e.TransactionID == ids[hit] && e.Error == nil && e.Message == m, "the handler sees the received message")
 		vxSameBytes(e.Message.Raw, data, "the Message is the decode of exactly the received datagram")
-		vxAssert(len(env.c.t) == n-1 && env.c.t[ids[hit]] == nil, "only the matched transaction is completed")
+		vxAssert(inFlightAfter == n-1, "only the matched transaction is completed")
 	} else {
 		vxReach("unmatched")
-		vxAssert(withFallback && len(fb.events) == 1, "a message matching no transaction goes to the fallback handler only")
+		vxAssert(withFallback && seen[n] == 1, "a message matching no transaction goes to the fallback handler only")
 		vxAssert(fb.events[0].Message == m && fb.events[0].TransactionID == rid, "the fallback handler sees the message")
-		vxAssert(len(env.c.t) == n, "an unmatched message affects no transaction")
+		vxAssert(inFlightAfter == n, "an unmatched message affects no transaction")
 	}
 }
 
@@ -115,6 +147,30 @@ func vh_C12_duplicate() {
 	vxAssert(env.c.Start(vxRequest(id3, 40), rec3.handle) == nil, "Start with a recycled transaction object succeeds")
 	_ = env.deliver(&Message{TransactionID: id3})
 	vxAssert(len(rec3.events) == 1 && len(rec.events) == 1, "the recycled object delivers to its new handler exactly once")
+	vxReach("done")
+}
+
+// a late response after the final timeout, with the pooled transaction object reused in between
+func vh_C12_late_after_timeout() {
+	fb := &vxCalls{}
+	env := vxNewClient(WithHandler(fb.handle))
+	env.c.maxAttempts = 0
+	env.c.SetRTO(100)
+	a, b := vxID(), vxID()
+	vxAssume(a != b)
+	recA, recB := &vxCalls{}, &vxCalls{}
+	vxAssert(env.c.Start(vxRequest(a, 40), recA.handle) == nil, "Start A succeeds")
+	env.tick(env.clock.now.Add(1000)) // A times out for good
+	vxAssert(len(recA.events) == 1 && errors.Is(recA.events[0].Error, ErrTransactionTimeOut), "A is timed out")
+	vxAssert(env.c.Start(vxRequest(b, 40), recB.handle) == nil, "Start B succeeds (it may reuse A's pooled object)")
+	late := &Message{TransactionID: a}
+	_ = env.deliver(late)
+	vxAssert(len(recB.events) == 0, "a late response for A is not delivered to B")
+	vxAssert(len(recA.events) == 1, "A's handler is not invoked again")
+	vxAssert(len(fb.events) == 1 && fb.events[0].Message == late, "the late response goes to the fallback handler")
+	resp := &Message{TransactionID: b}
+	_ = env.deliver(resp)
+	vxAssert(len(recB.events) == 1 && recB.events[0].Message == resp, "B still receives its own response")
 	vxReach("done")
 }
 
@@ -169,10 +225,20 @@ func vh_C15_close() {
 	if inflight {
 		vxAssert(env.c.Start(vxRequest(id, 40), rec.handle) == nil, "Start succeeds")
 	}
+	overlap := vxChoose(2) == 1
+	var overlapErr error
+	if overlap {
+		// a second Close arrives while the first is inside collector.Close()
+		env.coll.onClose = func() { overlapErr = env.c.Close() }
+		vxReach("overlapping-close")
+	}
 	vxGuard("Client", "closed", "mux")
 	vxGuard("Client", "t", "mux")
 	err := env.c.Close()
 	vxGuardsOff()
+	if overlap {
+		vxAssert(errors.Is(overlapErr, ErrClientClosed), "a Close overlapping the first one returns ErrClientClosed")
+	}
 	wantConnErr := connFails && !noConnClose
 	if !agentFails && !wantConnErr {
 		vxReach("clean-close")
@@ -209,6 +275,16 @@ func vh_C15_close() {
 	_ = env.c.a.Collect(vxTime())
 	vxAssert(len(rec.events)+len(fb.events) == handled && len(rec2.events) == 0, "no handler is invoked after Close has returned")
 	// the reader's loop terminates at once (the close channel is closed)
+	stopped := false
+	select {
+	case <-env.c.close:
+		stopped = true
+	default:
+	}
+	vxAssert(stopped, "the reader's stop channel is closed when Close returns")
+	if !stopped {
+		return
+	}
 	env.c.readUntilClosed()
 	vxAssert(env.conn.reads == 0, "the reader does not touch the connection after Close")
 	vxReach("reader-exits")
